@@ -521,6 +521,13 @@ def family_docs(mods, rng, tier):
             h = {"N": rn, "kind": "seq", "before": [n for n, _, _ in comps[:nk]], "after": [], "outer": []}
             tree = ("e", rn, known + [("u", rn, "seq", unk)])
             tv = extgen.truncate_value(x, xr, v)
+            if any(nd[0] == "e" and any(k[0] == "e" for k in nd[2]) for nd in unk):
+                # the same document with every element INSIDE the unknown additions called like the reader's element (what a
+                # recursive newer version would send): the family's own names never clash with an enclosing element
+                unk2 = [rename_inner(nd, rn) for nd in unk]
+                out.append({"mod": c["m"], "tn": rn, "label": "family-renamed:%s:%s<-%s:%s" % (c["m"]["name"], rn, c["tn"], c["cat"]),
+                            "tree": ("e", rn, known + [("u", rn, "seq", unk2)]), "der": der_tree(X5.ext_tree(xr), tv).hex(),
+                            "sections": [(h, unk2)], "frame": "family"})
             out.append({"mod": c["m"], "tn": rn, "label": "family:%s:%s<-%s:%s" % (c["m"]["name"], rn, c["tn"], c["cat"]), "tree": tree,
                         "der": der_tree(X5.ext_tree(xr), tv).hex(), "sections": [(h, unk)], "frame": "family",
                         "sender": (c["tn"], sder, ("e", c["tn"], [nd for nd in nodes if nd is not None]))})
@@ -552,6 +559,14 @@ def family_docs(mods, rng, tier):
                     out.append({"mod": m, "tn": rn, "label": "family:%s:%s:alt%d%s" % (m["name"], rn, i, "" if i < nk else ":unknown"), "tree": tree, "der": der,
                                 "sections": secs, "frame": "family", "setof": "t" in big["ety"], "sender": (tns[-1], der_tree(trees[i], val).hex(), ("e", tns[-1], [nd]))})
     return out
+
+
+def rename_inner(nd, name, root=True):
+    if nd[0] == "t" or (nd[0] == "b" and (root or nd[1] in ("true", "false"))):
+        return nd
+    if nd[0] == "b":
+        return ("b", name)
+    return ("e", nd[1] if root else name, [rename_inner(k, name, False) for k in nd[2]])
 
 
 def val_bytes(v):
